@@ -219,10 +219,12 @@ impl FmtAttribute {
         fields: &syn::Fields,
     ) -> Option<(Expr, syn::Ident)> {
         self.transparent_call().map(|(expr, trait_ident)| {
-            let expr = if let Some(field) = fields
-                .fmt_args_idents()
-                .find(|field| expr == *field || expr == field.unraw())
-            {
+            // Only a name used directly in the format string denotes the field itself; an explicit
+            // argument is the binding (a reference to the field), exactly as `format_args!()` sees it.
+            let named_in_literal = self.args.is_empty();
+            let expr = if let Some(field) = fields.fmt_args_idents().find(|field| {
+                named_in_literal && (expr == *field || expr == field.unraw())
+            }) {
                 field.into()
             } else {
                 parse_quote! { &(#expr) }
